@@ -11,65 +11,83 @@ From PV Require Import PyLib LabelGen LabelGenEquiv.
 Import ListNotations.
 Open Scope Qc_scope.
 
-(* The full-strength statement about the mechanism model. *)
+(* The full-strength statement about the mechanism model (see HOW TO READ IT below). *)
 Definition C01_full_statement : Prop :=
   forall n, wf n = true -> forall st pa v, deriv_impl n st pa v = deriv n st pa v.
 
-(* HEADLINE — unconditional.  For every well-formed network (any number of nodes, operators, edges, parallel edges, self loops,
-   hierarchy levels, several variables of one node feeding one target, any variable names), every state vector, every
-   parameter assignment and every variable, the mechanism model computes the Spec's derivative.  No guard is left: D3 was
-   repaired by fix D59, the parser class by D80, the clashes between generated and user names by D83 (in-edge names) and
-   D84 (input labels); the model switches Edges.fixed_D3 / fixed_D22 / fixed_D22b are `true`, the former guards hold of every
-   network (C01_guards_trivial) and the former witnesses are regression cases of the correspondence run.
-   Pipeline coverage: grouping, merging, matrix / indexed forms, multi-source sum, wiring of producers and edge operator,
-   recursive evaluation of algebraic variables; separately proved: hierarchy flattening (the C01_hierarchy theorems), the
-   evaluation order of _sort_var_updates (C01_sort_topological, C01_sorted_run_solves, and uniqueness:
-   C01_sorted_run_is_recursive_value, C01_solution_is_value), unique labels (C01_names).  NOT covered by a theorem: the
-   textual rewrite of whole equations through sympy (only its algebraic effect, C01_substitute_input_term), the renaming
-   between the model's per-operator names and the flat backend labels, and code printing — exercised by the correspondence
-   run only. *)
+(* HEADLINE.  For every network, every state vector, every parameter assignment and every variable, the mechanism model computes
+   the Spec's derivative.  HOW TO READ IT (independent review, DESIGN.md section 12):
+   * `deriv` and `deriv_impl` are the SAME evaluation skeleton (Net.deriv_with / value_with) and differ only in the rule for input
+     variables.  "Each derivative is its own equation" and "an algebraic variable is its defining expression" therefore hold by
+     construction of the model; the content of C01_full is the input layer — C01_input_layer: grouping, merging per target
+     variable keyed by (source node, source variable), matrix `+=` / indexed forms, multi-source sum, wiring of same-node producers
+     and the edge operator equal  Σ producers + Σ over ALL edges of weight * source, or the default.  That the real code evaluates
+     equations and algebraic variables like the skeleton is decided by the correspondence run, supported by the separately proved
+     (and NOT composed with deriv_impl) statements about hierarchy flattening, the order of _sort_var_updates and its uniqueness
+     corollaries over flat names, and unique labels (C01_names).
+   * the hypothesis `wf n = true` is not used by the proof (it is kept because the property speaks of well-formed models; the
+     statement holds of every `net`).
+   * no guard: D3 was repaired by fix D59 (switch fixed_D3; C01_before_fix_D59 is the real before-fix theorem).  The former
+     name-clash guards are CONSTANTS since D83 / D84 (`guard_names := fixed_D22 || …`): the model never reads names, so Coq says
+     nothing about "any legal variable names" beyond the isolated C01_label_clash_refuted / C01_substitute_input_term; that the
+     generated names are fresh in the real code is decided by the correspondence run (names / labels regression streams, revert tests).
+   * NOT covered by any theorem: equation text -> sympy -> printed source, the renaming between the model's per-operator names and
+     the flat backend labels, the enumeration order of the state layout, and "the returned argument values are the declared or
+     overridden values" (checked on every compiled model by the harness predicate Edges.values_ok only). *)
 Theorem C01_full : forall n, wf n = true -> forall st pa v, deriv_impl n st pa v = deriv n st pa v.
 Proof. exact (fun n _ => deriv_impl_full n). Qed.
 Print Assumptions C01_full.
 
-Theorem C01_guards_trivial : forall n, guard_d3 n = true /\ guard n = true.
-Proof. exact (fun n => conj (guard_d3_when_fixed eq_refl n) (guard_when_names_fixed eq_refl eq_refl n)). Qed.
-Print Assumptions C01_guards_trivial.
-
-Theorem C01_model_full : C01_full_statement.
-Proof. exact (fun n _ => deriv_impl_full n). Qed.
-Print Assumptions C01_model_full.
-
-(* the same for every variable (algebraic variables and inputs included), not only derivatives *)
-Theorem C01_full_values : forall n st pa v, value_impl n st pa v = value n st pa v.
-Proof. exact value_impl_full. Qed.
-Print Assumptions C01_full_values.
-
-(* the input-variable layer on its own: for ANY valuation sv of the sources *)
+(* the content of C01_full: the input-variable layer, for ANY valuation sv of the sources *)
 Theorem C01_input_layer : forall n pa sv v prods, input_impl n pa sv v prods = input_spec n pa sv v prods.
 Proof. exact input_impl_full. Qed.
 Print Assumptions C01_input_layer.
 
-(* generic in the switches (fixes D83 / D84: generated in-edge names and input labels made unique against user names): with
-   Edges.fixed_D22 and Edges.fixed_D22b on, the former name-clash guard holds of every network *)
+(* corollaries through the shared skeleton: the same statement without the unused hypothesis, and for every variable *)
+Theorem C01_model_full : C01_full_statement.
+Proof. exact (fun n _ => deriv_impl_full n). Qed.
+Print Assumptions C01_model_full.
+
+Theorem C01_full_values : forall n st pa v, value_impl n st pa v = value n st pa v.
+Proof. exact value_impl_full. Qed.
+Print Assumptions C01_full_values.
+
+(* BEFORE fix D59 — a real theorem (the switch is a parameter of Edges.deriv_impl_gen, Coq evaluates the former mechanism):
+   with _collect_from_edges keyed by the source node only, two different variables of ONE source node projecting to the same target
+   variable delivered (w1+w2) * first variable: 17/8 where the Spec says 13/8.  The witness is the regression case
+   corpus/C01/d3_witness.json; C01_switch_is_model ties the parameterised mechanism to the model used everywhere else. *)
+Theorem C01_before_fix_D59 : exists n st pa v, wf n = true /\ deriv_impl_gen false n st pa v <> deriv n st pa v.
+Proof. exact d3_before_fix. Qed.
+Print Assumptions C01_before_fix_D59.
+
+Theorem C01_switch_is_model : deriv_impl_gen fixed_D3 = deriv_impl.
+Proof. exact deriv_impl_gen_is_model. Qed.
+Print Assumptions C01_switch_is_model.
+
+(* the repair, generically in the switch: with the merge keyed by (source node, source variable) the D3 guard holds of every
+   network and the full statement follows (proved by an invariant of the grouping dict, not by computation) *)
+Theorem C01_full_when_D3_fixed : fixed_D3 = true -> C01_full_statement.
+Proof. exact (fun Hfix n _ => full_when_fixed Hfix n). Qed.
+Print Assumptions C01_full_when_D3_fixed.
+
+(* BOOK-KEEPING RECORDS, not results ---------------------------------------------------------------------------------- *)
+(* conditional record: vacuous while the switch is true (its hypothesis is false); it is re-checked only when the switch is
+   flipped back, which is how the revert test of D59 uses the model.  The real statement is C01_before_fix_D59 above. *)
+Theorem C01_before_fix_D59_record : fixed_D3 = false -> exists n st pa v, wf n = true /\ guard_names n = true /\ guard_labels n = true /\
+  deriv_impl n st pa v <> deriv n st pa v.
+Proof. exact d3_refutes. Qed.
+Print Assumptions C01_before_fix_D59_record.
+
+(* definitional: guard_names / guard_labels are `fixed_D22 || …` / `fixed_D22b || …`, i.e. the constant `true` since D83 / D84;
+   these two statements record that the switches are on and say nothing about the repairs themselves *)
+Theorem C01_guards_trivial : forall n, guard_d3 n = true /\ guard n = true.
+Proof. exact (fun n => conj (guard_d3_when_fixed eq_refl n) (guard_when_names_fixed eq_refl eq_refl n)). Qed.
+Print Assumptions C01_guards_trivial.
+
 Theorem C01_full_unconditional_when_names_fixed : fixed_D22 = true -> fixed_D22b = true ->
   forall n, wf n = true -> guard n = true /\ forall st pa v, deriv_impl n st pa v = deriv n st pa v.
 Proof. exact (fun H1 H2 n _ => conj (guard_when_names_fixed H1 H2 n) (deriv_impl_full n)). Qed.
 Print Assumptions C01_full_unconditional_when_names_fixed.
-
-(* BEFORE fix D59 (model switch Edges.fixed_D3 = false: _collect_from_edges keyed by the source node only) the full statement
-   was false: two different variables of ONE source node projecting to the same target variable delivered (w1+w2) * first
-   variable.  The witness (13/8 vs 17/8 on the unrepaired code) is now the regression case corpus/C01/d3_witness.json. *)
-Theorem C01_before_fix_D59 : fixed_D3 = false -> exists n st pa v, wf n = true /\ guard_names n = true /\ guard_labels n = true /\
-  deriv_impl n st pa v <> deriv n st pa v.
-Proof. exact d3_refutes. Qed.
-Print Assumptions C01_before_fix_D59.
-
-(* the repair, generically in the switch: with the merge keyed by (source node, source variable) the D3 guard holds of every
-   network and the full statement follows *)
-Theorem C01_full_when_D3_fixed : fixed_D3 = true -> C01_full_statement.
-Proof. exact (fun Hfix n _ => full_when_fixed Hfix n). Qed.
-Print Assumptions C01_full_when_D3_fixed.
 
 (* key lemmas, one per branch of _generate_edge_equation ------------------------------------------------------------ *)
 (* matrix branch (`weight_mat[row, col] += w`, then matvec): equals the edge sum for ANY list of unit edges *)
